@@ -720,3 +720,99 @@ M("C14-size-check-wrong-length", "C14", [(OPS, '''        })?;
   ["C14/tx/enqueue-length/unsubscribe"])
 M("C14-limit-from-config", "C14", [(HS, '''        self.runtime.maximum_packet_size = maximum_packet_size;''', '''        self.runtime.maximum_packet_size = maximum_packet_size.or(self.runtime.maximum_packet_size);''')],
   ["C14/adv/limit-writer/connect_handshake"])
+
+# ---------------------------------------------------------------------------------------------- C09
+PKT = "src/packets.rs"
+TYPES = "src/types.rs"
+VARINT = "src/varint.rs"
+WILL = "src/will.rs"
+M("C09-size-u32-as-2", "C09", [(PROPS, '''            | Property::MaximumPacketSize(_) => 4 + identifier_length,''', '''            | Property::MaximumPacketSize(_) => 2 + identifier_length,''')],
+  ["C09/props/size/MaximumPacketSize"])
+M("C09-topic-alias-written-as-u8", "C09", [(PROPS, '''            Property::TopicAlias(data) => serializer.serialize_element(data)?,''', '''            Property::TopicAlias(data) => serializer.serialize_element(&(*data as u8))?,''')],
+  ["C09/props/write/TopicAlias"])
+M("C09-identifier-value-swapped", "C09", [(PROPS, '''    ResponseTopic = 0x08,
+    CorrelationData = 0x09,''', '''    ResponseTopic = 0x09,
+    CorrelationData = 0x08,''')],
+  ["C09/props/id/ResponseTopic"])
+M("C09-from-table-wrong-row", "C09", [(PROPS, '''            Property::RequestProblemInformation(_) => PropertyIdentifier::RequestProblemInformation,''', '''            Property::RequestProblemInformation(_) => PropertyIdentifier::RequestResponseInformation,''')],
+  ["C09/props/id/RequestProblemInformation"])
+M("C09-read-server-keepalive-as-u32", "C09", [(PROPS, '''            PropertyIdentifier::ServerKeepAlive => {
+                Property::ServerKeepAlive(variant.newtype_variant()?)''', '''            PropertyIdentifier::ServerKeepAlive => {
+                Property::ServerKeepAlive(variant.newtype_variant::<u32>()? as u16)''')],
+  ["C09/props/read/ServerKeepAlive"])
+M("C09-user-property-size-one-prefix", "C09", [(PROPS, '''                (value.len() + 2) + (key.len() + 2) + identifier_length''', '''                (value.len() + 2) + key.len() + identifier_length''')],
+  ["C09/props/size/UserProperty"])
+M("C09-with-correlation-size-forgets-user-props", "C09", [(PROPS, '''            } => properties
+                .iter()
+                .chain([correlation.clone()].iter())
+                .map(|prop| prop.size())
+                .sum(),''', '''            } => {
+                let _ = properties;
+                correlation.size()
+            }''')],
+  ["C09/block/size/WithCorrelation"])
+M("C09-encoded-len-branch-free", "C09", [(VARINT, '''        match self.0 {
+            0..=0x7F => 1,
+            0x80..=0x3FFF => 2,
+            0x4000..=0x1F_FFFF => 3,
+            _ => 4,
+        }''', '''        let significant_bits = (u32::BITS - self.0.leading_zeros()) as usize;
+        significant_bits / 7 + 1''')],
+  ["C09/varint/encoded-len"])
+M("C09-encoded-len-boundary", "C09", [(VARINT, '''            0x80..=0x3FFF => 2,
+            0x4000..=0x1F_FFFF => 3,''', '''            0x80..=0x7FFF => 2,
+            0x8000..=0x1F_FFFF => 3,''')],
+  ["C09/varint/encoded-len"])
+M("C09-will-retain-bit", "C09", [(PKT, '''                flags |= 1 << 5;''', '''                flags |= 1 << 4;''')],
+  ["C09/bits/connect/will-retain"])
+M("C09-password-flag-without-auth-guard", "C09", [(PKT, '''        if self.auth.is_some() {
+            flags |= 1 << 6;
+            flags |= 1 << 7;
+        }''', '''        if self.auth.is_some() {
+            flags |= 1 << 7;
+        }
+        flags |= 1 << 6;''')],
+  ["C09/bits/connect/password-flag"])
+M("C09-no-local-bit", "C09", [(TYPES, '''            value |= 1 << 2;''', '''            value |= 1 << 1;''')],
+  ["C09/bits/suboptions/no-local"])
+M("C09-retain-handling-shift", "C09", [(TYPES, '''        value |= (self.retain_behavior as u8) << 4;''', '''        value |= (self.retain_behavior as u8) << 5;''')],
+  ["C09/bits/suboptions/retain handling"])
+M("C09-connect-order", "C09", [(PKT, '''        item.serialize_field("keep_alive", &self.keepalive)?;
+        item.serialize_field("properties", &self.properties)?;
+        item.serialize_field("client_id", &self.client_id)?;''', '''        item.serialize_field("keep_alive", &self.keepalive)?;
+        item.serialize_field("client_id", &self.client_id)?;
+        item.serialize_field("properties", &self.properties)?;''')],
+  ["C09/connect/order/Connect"])
+M("C09-will-order", "C09", [(WILL, '''        item.serialize_field("topic", &Utf8String(self.topic.as_str()))?;
+        item.serialize_field("data", &BinaryData(self.data))?;''', '''        item.serialize_field("data", &BinaryData(self.data))?;
+        item.serialize_field("topic", &Utf8String(self.topic.as_str()))?;''')],
+  ["C09/connect/order/Will"])
+M("C09-subscribe-field-order", "C09", [(PKT, '''pub(crate) struct Subscribe<'a> {
+    pub(crate) packet_id: u16,
+    #[serde(skip)]
+    pub(crate) dup: bool,
+    pub(crate) properties: Properties<'a>,
+    pub(crate) topics: &'a [TopicFilter<'a>],
+}''', '''pub(crate) struct Subscribe<'a> {
+    pub(crate) properties: Properties<'a>,
+    pub(crate) packet_id: u16,
+    #[serde(skip)]
+    pub(crate) dup: bool,
+    pub(crate) topics: &'a [TopicFilter<'a>],
+}''')],
+  ["C09/connect/order/Subscribe"])
+M("C09-string-length-cast", "C09", [(WIRE, '''        let len = u16::try_from(self.0.len())
+            .map_err(|_| S::Error::custom("Provided string is too long"))?;''', '''        let len = self.0.len() as u16;''')],
+  ["C09/len16/Utf8String"])
+M("C09-keepalive-millis", "C09", [(HS, '''        let keepalive = self.runtime.keepalive_interval.as_secs() as u16;''', '''        let keepalive = self.runtime.keepalive_interval.as_millis() as u16;''')],
+  ["C09/connect/keepalive"])
+M("C09-session-expiry-dropped", "C09", [(HS, '''            Property::SessionExpiryInterval(self.session_expiry_interval),''', '''            Property::SessionExpiryInterval(if self.data.session_present { self.session_expiry_interval } else { 0 }),''')],
+  ["C09/connect/session-expiry"])
+M("C09-publish-dup-bit", "C09", [(WIRE, '''        if self.dup {
+            flags |= 1 << 3;
+        }
+        flags''', '''        if self.dup {
+            flags |= 1 << 2;
+        }
+        flags''')],
+  ["C09/bits/publish/dup"])
